@@ -145,6 +145,14 @@ CHECKS.update({
             "DESIGN.md section 5 C15"),
 })
 
+CHECKS.update({
+    "C03": ("translation_validation",
+            "translation validation of the emitted Fortran text: fsym (reader + symbolic executor of the emitted subset, z3 Reals, guards fork) vs the real interpreter in one symx path on symbolic real inputs; z3 validity per persistent variable / returned slot / next phase after every run; gfortran syntax check and fsym-vs-gfortran conformance as labelled concrete side checks; candidates replayed with a generated driver compiled by gfortran",
+            "For each program of the Fortran-supported subset the module emitted by the real generator is executed symbolically for K=3 runs (thorough 4) and z3 proves, for all real inputs (exact arithmetic), that after every run the persistent variables, the ret_state/ret_time/ret_time_id slots and dagrt_next_phase equal what the real interpreter holds; a STOP must coincide with a Raise. The integer quotient of loop counters is a listed known finding.",
+            "Trusted: z3, fsym (validated against gfortran binaries on concrete inputs in every run; unsupported constructs are harness errors), gfortran for the compile clause. Outside: IEEE rounding, LAPACK built-ins, isnan.",
+            "DESIGN.md section 5 C03"),
+})
+
 NOT_APPLICABLE = {
 }
 
